@@ -61,6 +61,9 @@ type world struct {
 	own       uint64
 }
 
+// r1Candidate makes the halt-lock holder itself a candidate for the lease (holder-promoted).
+var r1Candidate bool
+
 // shortRetention makes every node keep its transaction files for one second only (expiry-snapshot).
 var shortRetention bool
 
@@ -84,7 +87,7 @@ func newWorld(wal bool, viol func(string, string, ...any), spawn func(func()), t
 		}
 	}
 	cl.AddNode("P", true, nil)
-	cl.AddNode("R1", false, func(cfg *lab.NodeConfig) { cfg.ExitImage = true })
+	cl.AddNode("R1", r1Candidate, func(cfg *lab.NodeConfig) { cfg.ExitImage = true })
 	cl.AddNode("R2", r2Candidate, nil)
 	if err := cl.Start("P"); err != nil || cl.WaitPrimary(5*time.Second) == nil {
 		return w, "start P"
@@ -201,6 +204,10 @@ func run1(t *testing.T, c Case) (res Result) {
 			ttl = 2 * time.Second
 		}
 		shortRetention = c.Scenario == "expiry-snapshot"
+		r1Candidate = c.Scenario == "holder-promoted"
+		if r1Candidate {
+			ttl = 8 * time.Second
+		}
 		r2Candidate = c.Scenario == "primary-change" || c.Scenario == "stale-forward"
 		if r2Candidate {
 			ttl = 8 * time.Second
@@ -605,6 +612,33 @@ func run1(t *testing.T, c Case) (res Result) {
 			}
 			w.checkAll("lost-" + strings.ReplaceAll(drop, " ", ""))
 			res.Class = "lost-ok"
+		case "holder-promoted":
+			// The holder of the halt lock becomes the primary itself (the granting primary is demoted and the holder is the
+			// only other candidate). It has write authority of its own now: its next commit must succeed - not be forwarded
+			// to a primary that does not exist - and reach the others.
+			if err := w.acquire(); err != nil {
+				viol("C13/acquire-failed", "acquiring the halt lock failed: %v", err)
+				return
+			}
+			P.Store.Demote()
+			if !lab.WaitFor(40*time.Second, R.Store.IsPrimary) {
+				res.Harness = "R1 did not become primary"
+				return
+			}
+			lab.Settle(2 * time.Second)
+			ok, terr, step := w.txOn(R, 10, []uint32{2, 3})
+			if len(R.ExitCodes()) > 0 {
+				viol("C13/exit/holder-promoted", "the former halt-lock holder, now primary, called Store.Exit(%v) on its first commit (%v at %q)", R.ExitCodes(), terr, step)
+				return
+			}
+			if !ok {
+				viol("C13/primary-cannot-commit/holder-promoted", "the former halt-lock holder is primary but its commit failed at %q: %v", step, terr)
+				return
+			}
+			_ = w.release()
+			lab.Settle(12 * time.Second) // the lock on the former primary's books expires (TTL 8 s)
+			w.checkAll("holder-promoted")
+			res.Class = "holder-promoted-ok"
 		case "primary-change":
 			// The primary changes while R1 holds the halt lock (Variant%2: 0 = Demote, 1 = hand-off to R2), and R1 commits
 			// Variant/2: 0 = at once, 1 = after the new primary is up. Whatever happens to that commit, if the application
@@ -1077,7 +1111,7 @@ func TestCheck(t *testing.T) {
 			cases = append(cases, Case{Scenario: "lost-replies", WAL: wal, Variant: v})
 		}
 		cases = append(cases, Case{Scenario: "lagging-acquire", WAL: wal, Variant: 0}, Case{Scenario: "lagging-acquire", WAL: wal, Variant: 1},
-			Case{Scenario: "acquire-timeout", WAL: wal}, Case{Scenario: "expiry-snapshot", WAL: wal})
+			Case{Scenario: "acquire-timeout", WAL: wal}, Case{Scenario: "expiry-snapshot", WAL: wal}, Case{Scenario: "holder-promoted", WAL: wal})
 		for v := 0; v < 18; v++ {
 			cases = append(cases, Case{Scenario: "tx-matrix", WAL: wal, Variant: v})
 		}
